@@ -124,10 +124,23 @@ def _overlap(a, b):
     return a is b or (a.size > 0 and b.size > 0 and np.may_share_memory(a, b) and np.shares_memory(a, b))
 
 
+def mutable_arrays_of(o):
+    """arrays_of without the members that no quara operation can change (MultinomialDistribution has no mutator: an
+    ensemble may share its distribution object with the ensemble it was computed from)"""
+    Q = q()
+    if isinstance(o, Q["md"].MultinomialDistribution):
+        return []
+    if isinstance(o, Q["se"].StateEnsemble):
+        return [a for x in o.states for a in arrays_of(x)]
+    if isinstance(o, (list, tuple)):
+        return [a for x in o for a in mutable_arrays_of(x)]
+    return arrays_of(o)
+
+
 def independence(res, others):
     """a NEW object returned by an operation must own its arrays: no two of its components may be one array (a later in-place
     update of one would change the other) and none may share memory with an object that existed before.  others: [(name, arrays)]"""
-    own = arrays_of(res)
+    own = mutable_arrays_of(res)
     msgs = []
     for i in range(len(own)):
         for j in range(i):
@@ -459,9 +472,14 @@ def run_touch(c, name):
     raise KeyError(name)
 
 
+def nb(ctx, quick, thorough):
+    """case count; tripled in the quick tier when the translator tie is broken (search harder for a concrete failing input)"""
+    return min(thorough, 3 * quick) if getattr(ctx, "boost", False) and ctx.quick else ctx.n(quick, thorough)
+
+
 def sub_cache(ctx):
     cases = []
-    for k in range(ctx.n(40, 400)):
+    for k in range(nb(ctx, 40, 400)):
         r = ctx.rng.random()
         names = (0,) if r < 0.6 else ((2,) if r < 0.8 else (0, 1))
         cases.append({"seed": ctx.rng.randrange(1 << 30), "names": list(names), "length": ctx.rng.randint(4, ctx.n(12, 40))})
@@ -1212,11 +1230,11 @@ def run_history(ctx, case, report=True):
         # ---- a returned quara object is a NEW object: it owns its arrays (accessors that hand out a member are exempt)
         accessor = desc["t"] in ("setter", "cache", "basisq") or (desc["t"] == "md" and desc["m"] == "state") or \
             (desc["t"] == "unary" and desc["m"] in ("states", "prob_dist", "ps", "shape", "eps_zero", "is_zero_dist"))
-        if not accessor and not isinstance(res, (Exception, np.ndarray, Closure)) and arrays_of(res):
+        if not accessor and not isinstance(res, (Exception, np.ndarray, Closure)) and mutable_arrays_of(res):
             # generate_from_var is a constructor in the sense of the property ("constructors, which adopt the arrays handed to
             # them, excepted"): the generated object may be a view of the variable vector, and so may an object generated earlier
             adopts = desc["t"] == "varfn" and desc["m"] == "generate_from_var"
-            for sig, msg in independence(res, [] if adopts else [(key, arrays_of(ent["obj"])) for key, ent in pool.items() if ent["kind"] != "var"]):
+            for sig, msg in independence(res, [] if adopts else [(key, mutable_arrays_of(ent["obj"])) for key, ent in pool.items() if ent["kind"] != "var"]):
                 fails.append((site, sig, k, "op %d (%s): %s" % (k, site, msg)))
         # ---- results join the pool
         labels.append(desc["t"] if not isinstance(res, Exception) else desc["t"] + "!raise")
@@ -1586,10 +1604,74 @@ def chk_tomo(ctx, case):
                 ctx.violation("tomo", site, "mutates-derived-object", "%s on one object returned by %s changed another object returned by the same query" % (mname, how), sub)
 
 
+def tomo_data(qt, k):
+    """empirical distributions of the right shapes from small rationals; the k-th set has an outcome that never occurred"""
+    out = []
+    for i in range(qt.num_schedules):
+        m = int(qt.num_outcomes(i))
+        wts = [((3 * i + 2 * x + k) % 5) + 1 for x in range(m)]
+        if (i + k) % 3 == 0:
+            wts[(i + k) % m] = 0
+        out.append((100 * (k + 1), np.array(wts, dtype=np.float64) / sum(wts)))
+    return out
+
+
+def chk_tomo_estimate(ctx, case):
+    """one LinearEstimator object re-used over three data sets on one tomography object: every estimate equals the estimate of a
+    fresh estimator on a fresh tomography object, the data and the tomography object are left as they were, and the estimated
+    object handed out is independent of the tomography object (all its public mutators applied)"""
+    from quara.protocol.qtomography.standard.linear_estimator import LinearEstimator
+    kind, on_para = case["kind"], bool(case["on_para"])
+    qt = make_tomo(kind, on_para)
+    s0 = tomo_snapshot(qt)
+    est = LinearEstimator()
+    site = "LinearEstimator.calc_estimate(Standard%s%s)" % (kind[0].upper(), kind[1:])
+    for k in range(3):
+        data = tomo_data(qt, k)
+        dd0 = data_digest([data])
+
+        def run(e, t, d):
+            try:
+                with warnings.catch_warnings():
+                    warnings.simplefilter("ignore")
+                    r = e.calc_estimate(t, d, is_computation_time_required=False)
+                return r, canon([np.array(r.estimated_var), r.estimated_qoperation])
+            except Exception as ex:
+                return None, canon(ex)
+        r, v = run(est, qt, data)
+        _, vf = run(LinearEstimator(), make_tomo(kind, on_para), [(n, pr.copy()) for n, pr in data])
+        sub = dict(case, k=k)
+        ctx.count("tomo", key=(kind, on_para, "estimate", k), nontrivial=r is not None, label="%s linear estimate" % kind)
+        if not same(v, vf, 1e-9):
+            ctx.violation("tomo_estimate", site, "history-dependent", "data set %d: re-used estimator / tomography objects give %s, fresh ones %s" % (k, _brief(v), _brief(vf)), sub)
+        if data_digest([data]) != dd0:
+            ctx.violation("tomo_estimate", site, "mutates-argument", "the estimation overwrote the empirical distributions handed to it (data set %d)" % k, sub)
+        if tomo_snapshot(qt) != s0:
+            ctx.violation("tomo_estimate", site, "mutates-argument", "the estimation changed the tomography object (data set %d)" % k, sub)
+            return
+        if r is None:
+            continue
+        qo = r.estimated_qoperation
+        for sig, msg in independence(qo, [("a member / the template of the tomography object", [a for x in tomo_members(qt) for a in arrays_of(x)])]):
+            ctx.violation("tomo_estimate", site, sig, "estimated_qoperation: " + msg, sub)
+        var_before = digest(np.array(r.estimated_var))
+        for mname, mut in MUTATORS:
+            try:
+                mut(qo)
+            except Exception:
+                continue
+            if tomo_snapshot(qt) != s0:
+                ctx.violation("tomo_estimate", site, "mutates-derived-from", "%s on the estimated object changed the tomography object" % mname, sub)
+                return
+        if digest(np.array(r.estimated_var)) != var_before:
+            ctx.violation("tomo_estimate", site, "mutates-derived-object", "mutating the estimated object changed the estimated variables of the result", sub)
+
+
 def sub_tomo(ctx):
     cases = [{"kind": k, "on_para": op} for k in ("qst", "povmt", "qpt", "qmpt") for op in ((1, 0) if not ctx.quick else (1,) if k == "qmpt" else (0, 1))]
     ctx.sample("tomo", cases[0])
     ctx.run_cases("tomo", chk_tomo, cases)
+    ctx.run_cases("tomo_estimate", chk_tomo_estimate, cases)
 
 
 GENERATORS = ["copy", "generate_zero_obj", "generate_origin_obj", "calc_proj_eq_constraint", "calc_proj_ineq_constraint", "calc_proj_physical",
@@ -2097,7 +2179,7 @@ def chk_estimate(ctx, case):
 def sub_loss(ctx):
     rng = ctx.rng
     cases = []
-    for _ in range(ctx.n(24, 240)):
+    for _ in range(nb(ctx, 24, 240)):
         cases.append(gen_loss_case(rng, rng.choice([0, 0, 1, 1, 2, 3]), rng.randint(2, ctx.n(5, 8))))
     # systematic part: every ordered pair of weighting modes on one object (second configuration on another dataset), and a
     # setter call between / after them - so that "mode B after mode A" is exercised for ALL A, B on every run
@@ -2167,7 +2249,7 @@ def sub_witness(ctx):
 
 SUBS = [("cache", sub_cache), ("heap", sub_heap), ("basis", sub_basis), ("loss", sub_loss), ("witness", sub_witness), ("pure", sub_pure), ("sampling", sub_sampling), ("tomo", sub_tomo), ("factory", sub_factory), ("derived", sub_derived), ("history", sub_history)]
 FNS = {"cache": chk_cache, "heap": chk_heap, "basis": chk_basis, "copy": chk_copy, "loss": chk_loss, "algo": chk_algo, "estimate": chk_estimate,
-       "witness": chk_witness, "history": chk_history, "factory": chk_factory, "derived": chk_derived, "pure": chk_pure, "tomo": chk_tomo, "sampling": chk_sampling}
+       "witness": chk_witness, "history": chk_history, "factory": chk_factory, "derived": chk_derived, "pure": chk_pure, "tomo": chk_tomo, "tomo_estimate": chk_tomo_estimate, "sampling": chk_sampling}
 
 
 def regen_tables(ctx):
@@ -2242,19 +2324,12 @@ def run(ctx):
         ok, info = False, info2
         ctx.boost = True          # widen the sweeps of the sub-checks that exercise the translated code: look harder for a failing input
         ctx.note("regenerated-table obligations (coq/gen/C13_Equiv.v) not discharged: %s" % str(info2)[:400])
-        ctx.note("translator tie broken: cache / loss / algo sub-checks run with their thorough-tier sizes")
+        ctx.note("translator tie broken: the random parts of the cache and loss sub-checks run with 3x their quick-tier sizes")
     if not ok:
         ctx.discharged = min(ctx.discharged, ctx.obligations - 1)
     for name, fn in SUBS:
         if ctx.only is None or name in ctx.only:
-            if ctx.boost and name in ("cache", "loss"):
-                tier0, ctx.tier = ctx.tier, "thorough"
-                try:
-                    fn(ctx)
-                finally:
-                    ctx.tier = tier0
-            else:
-                fn(ctx)
+            fn(ctx)
     if not ok and not ctx.violations:
         ctx.violation("theorems", "Props/%s.v" % ctx.prop_id, "theorem-broken:%s" % info.get("theorem"),
                       "theorem %s no longer checks: %s" % (info.get("theorem"), info.get("error", "")[-400:]),
